@@ -151,6 +151,24 @@ def owns(h, f, i):
     return z3.And(*c)
 
 
+def owns_ack(h, f, i):
+    """Reduced ownership relation (C09's fallback when the full one cannot be established): initiator i - and nobody
+    else - sees the target's acknowledge / error / retry."""
+    bus, intrs = h.arb.bus, h.intrs
+    it = intrs[i]
+    c = [f.sig(it.ack) == f.sig(bus.ack)]
+    for nm in ("err", "rty"):
+        if hasattr(it, nm):
+            c.append(f.sig(getattr(it, nm)) == (f.sig(getattr(bus, nm)) if hasattr(bus, nm) else bv(1, 0)))
+    for j, ot in enumerate(intrs):
+        if j != i:
+            c.append(f.sig(ot.ack) == 0)
+    return z3.And(*c)
+
+
+RELATIONS = {"full": owns, "ack": owns_ack}
+
+
 def busy(h, f, i):
     """The owner's bus cycle is in progress: cyc, and (when the shared bus supports locking) lock|stb."""
     bus, it = h.arb.bus, h.intrs[i]
@@ -219,8 +237,9 @@ def step_stimulus(ts, frames, model):
     return model_stimulus(ts, frames, model)
 
 
-def analyse(cfg, h, stats, out, pid):
+def analyse(cfg, h, stats, out, pid, relation="full"):
     """Reachability + owner map.  Returns (reach, owner dict state->i) or None after recording a violation."""
+    owns = RELATIONS[relation]
     ts = h.translate()
     make = maker(cfg)
     R = Reach(h, stats)
@@ -266,6 +285,7 @@ def replay_violation(v):
     cfg = v["cfg"]
     make = maker(cfg)
     q = v["query"]
+    owns = RELATIONS[v.get("relation", "full")]
     if q == "exactly-one-owner":
         oks = []
         for i, w in v["witness"].items():
